@@ -107,7 +107,10 @@ Definition ustep (T : N) (s : ustate) (o : uop) : ustate * list uout :=
     (* MultiplexerSource::on_socket_error, then UdpClose handled by RightPipe *)
     match lookup m (fwd s) with
     | None => (s, [])
-    | Some _ => ({| pipe := remove m (pipe s); fwd := remove m (fwd s);
+    | Some _ => ({| pipe := remove m (pipe s);
+                    (* [UDP_READ_ERRORS_REMOVE_THE_FLOW]: every error path of the reading side goes through
+                       on_socket_error, which removes the entry (socket + gauge guard) before the pipe is told *)
+                    fwd := if UDP_READ_ERRORS_REMOVE_THE_FLOW then remove m (fwd s) else fwd s;
                     next_sock := next_sock s; terminated := false |}, [])
     end
   | Tick now =>
